@@ -1,6 +1,60 @@
+/-
+  C03 -- the fixed point for sources WITH `$`-references and expressions:
+  "reading a well-formed dict file, writing the result, and reading the written file yields the same data as the first
+   read; this includes the documented workflow where the parsed.<name> file produced from a source with $-expressions is
+   read again; the written text itself stabilises after one cycle", for every number n ≥ 1 of read–write cycles.
+
+  Setting: flat documents in the domain of `C05R.C05_read_layout` (`Doc`: top-level `key value;`, the value a literal,
+  a bare reference `$x`, or a double-quoted expression text such as `"$a + $b"`; `DocWF`), ANY admissible layout of the
+  source (`renderG doc lay tail`, `LayOK`), the reader `readFile` (= `DictReader.read`, default options), the writer
+  `fmtSD .native` (what `DictParser.parse` / `DictWriter.write` call for an SDict: default header block comment, then the
+  entries), cycles `C03.sdCycles` (write the SDict read, read the file written).  Data are compared up to the header
+  placeholder entry `BLOCKCOMMENT000000` that re-reading a written file adds (`C01.dropPhEntries`, as in `C16fold`).
+
+  A. RESOLVABLE reference graphs (`SrcOK`: `docRefsOK`, `docAcyclic` of C05read, literals in the writer's domain
+     `litsInDom`; `docResolvable c doc`: the topological specification `C05.topoVal evalInt` gives every name a value).
+     Evaluator: `evalInt` (integer expressions `+ - * ( )`).  Hypothesis "the first read succeeds" as in
+     `C05_read_layout` (the model gives up outside the integer language).
+       `first_read`            the first read returns exactly `{ data := evalData c doc }`: every name with its `topoVal`
+       `topoVal_good`, `evalData_good`   these values are the literals' values or integers (all `evalInt` can return):
+                               plain scalars of `DomC01`, normalised, no `$` left  ⇒  `C16.Good (evalData c doc)`
+       **`C03_expr_reread`**   one cycle: written text = `nativeHeader ++ fmtPlain data`; re-read data = first data
+       **`C03_expr_cycles`**, `C03_expr_cycles_last`   every `n`: all cycles write the same bytes and read the same
+                               data (bytes of cycle 2 = bytes of cycle 1; data after `n ≥ 1` cycles = data of the first read)
+       **`C03_expr_parse_api`** the same through `apiStep … (.parse p {} mode none)` and `.read (parseTarget p [] none)`
+                               in the two-file world (`parse` returns the dict after the writer's in-place re-typing:
+                               `normEs` is the identity here)
+  B. UNRESOLVED references (dangling `$nope`, `"$p + 1"`; cyclic).
+       `C03_expr_unresolved_statement`        the full statement (any `DocWF` document) -- **FALSE**:
+       **`C03_expr_unresolved_statement_false`**   witness `exW`: an unresolved expression whose text, after the
+                               resolvable references were substituted, begins with `;` (`s ';'; a "$s b…$c; d…";
+                               x "$y + 1"; b $c; d "$z + 1";`): in the written file the text `"; b…$c; d…"` also stands
+                               between two other quoted expressions, `_extract_expressions` replaces every occurrence,
+                               and the second read loses the entries `x`, `b`, `d`.
+       what holds (for EVERY evaluator): documents all of whose references are dangling (`SrcOKU`: `docDangling`, and the
+       document in the writer's spelling `respell doc` is again `DocWF`):
+       `evalExpressions_dangling`, `eval_dangling_doc`   `_eval_expressions` resolves nothing, one pass changes nothing,
+                               every placeholder is replaced by its text (`meanD doc`: `$nope`, `$p + 1` kept as text)
+       `fmtSD_meanD`           the writer: a text that is exactly one reference is written bare, any other text with `$`
+                               in double quotes, literals in the writer's spelling; explicit layout (`wLay`)
+       `parse_hdr_exprs`       the native parser on `nativeHeader ++ document with references/expressions`
+                               (`parse_flat_exprs_layout` with the library's header in front)
+       **`C03_expr_unresolved_partial`**, **`C03_expr_unresolved_cycles_partial`**   one cycle / every `n`
+       **`C03_expr_residual_cycles`**   mixed documents GIVEN the first read: if the first read returned `meanD r` for a
+                               residual document `r` (evaluated entries as literals, unresolved ones as text, dangling),
+                               every cycle writes the same bytes and reads that data (`exM_cycles`: the example
+                               `a 2; b $a; c "$a * $b + 1"; d $nope; e "$p + 1";`)
+       `C03_expr_unresolved_corrected`   the corrected full statement, kept as `Prop`, NOT proved: missing are the first
+                               read of a mixed / cyclic source in general and the re-read of cyclic references
+  Non-vacuity: `exR_*` (resolvable, loose layout, three cycles, API), `exU_*` (dangling), `exM_*` (mixed), `exW_*`.
+
+  NOT covered: nested dicts / lists, indexed references, includes, comments in the source (see C03cycles / C03incl),
+  evaluators other than `evalInt` in part A, cyclic references in part B, JSON / Foam targets.
+-/
 import DictIO.Props.C05read
 import DictIO.Props.C03bytes
 import DictIO.Props.C16fold
+import DictIO.Model.Api
 
 namespace DictIO.C03expr
 open DictIO DictIO.C05R
@@ -1499,6 +1553,78 @@ theorem C03_expr_cycles_last {doc : Doc} {lay : Lay} {tail : Str} {p q : Comps} 
   · intro x hx y hy
     rw [(List.mem_replicate.mp hx).2, (List.mem_replicate.mp hy).2]
 
+/-! ### A'. the same through the API state machine: `DictParser.parse(src)`, then `DictReader.read(parsed.<name>)` -/
+
+/-- `DictReader.read` (default options) in ANY file system that holds, under `q`, a text the native parser reads as
+    `hdrSD D`: the other files do not matter (no include directive) -/
+theorem readFile_hdr_anyfs {D : Entries} {c c' : Counter} (ev : Str → EvalResult) (fs : FS) (q : Comps) (text : Str)
+    (hget : fs.get (resolveSpelled q) = some (.native text))
+    (hparse : parseNative true (pathStr q.dropLast) c text = .ok (C12.hdrSD D, c'))
+    (hp : C07.NoPhEs D) (hn : NodupKeysV (.dict D)) (hj : isJsonPath q = false) (hx : isXmlPath q = false) :
+    readFile ev fs {} c q = .ok (.ok (C12.hdrSD D) c') := by
+  have hcl : (C12.hdrSD D).clean = C12.hdrSD D := C12.clean_single_header _ C12.hdrComment D rfl rfl hp hn
+  have hmi := C01.mergeIncludes_clean fs true (C12.hdrSD D) q.dropLast c' rfl hcl (C12.hdr_nodup hp hn)
+  have hev := C01.evalExpressions_noexpr ev (C12.hdrSD D) rfl
+  have hpf : parseFile fs true c q = .ok (C12.hdrSD D, c') := by
+    simp only [parseFile, hx, hget, hj, hparse]
+    rfl
+  simp only [readFile, hpf, bind, Except.bind, pure, Except.pure]
+  simp only [if_true, hmi, hev]
+  rfl
+
+/-- **the documented workflow, on the API model.**  The world holds the source file `p`; `DictParser.parse(p)` (any
+    mode; the target `q = parsed.<name>` in the same folder does not exist yet and is a native file) reads it, writes
+    `q` and returns the evaluated dict; `DictReader.read(q)` in the new world returns, up to the header placeholder
+    entry, the same data.  (`parse` hands back the dict after `DictWriter.write` re-typed its string leaves in place:
+    `normEs` is the identity on the evaluated data.) -/
+theorem C03_expr_parse_api {doc : Doc} {lay : Lay} {tail : Str} {p : Comps} (H : SrcOK doc lay tail p)
+    {c : Counter} (hc : C13.ValidCounter Gen.counterLimit c) (hres : docResolvable c doc = true) (mode : Str)
+    (Q : C16.PathOK (parseTarget p [] none)) (hfl : flavorOfPath (parseTarget p [] none) = some .native)
+    (hne : parseTarget p [] none ≠ p) {sd₀ : SD} {c₁ : Counter}
+    (hread : readFile evalInt [(p, .native (renderG doc lay tail))] {} c p = .ok (.ok sd₀ c₁)) :
+    ∃ c₂,
+      apiStep evalInt { fs := [(p, .native (renderG doc lay tail))], c := c } (.parse p {} mode none) =
+        ({ fs := [(p, .native (renderG doc lay tail)),
+                  (parseTarget p [] none, .native (nativeHeader ++ fmtPlain .native sd₀.data))], c := c₁ }, .data sd₀) ∧
+      apiStep evalInt { fs := [(p, .native (renderG doc lay tail)),
+                  (parseTarget p [] none, .native (nativeHeader ++ fmtPlain .native sd₀.data))], c := c₁ }
+          (.read (parseTarget p [] none) {}) =
+        ({ fs := [(p, .native (renderG doc lay tail)),
+                  (parseTarget p [] none, .native (nativeHeader ++ fmtPlain .native sd₀.data))], c := c₂ },
+         .data (C12.hdrSD sd₀.data)) ∧
+      C01.dropPhEntries (C12.hdrSD sd₀.data).data = sd₀.data := by
+  have h0 := first_read H hc hres hread
+  simp only [ReadOut.ok.injEq] at h0
+  obtain ⟨rfl, rfl⟩ := h0
+  have G := evalData_good H hc hres
+  have hv : C13.ValidCounter Gen.counterLimit (labelAll c doc).1.counter := counter_valid hc
+  obtain ⟨c₂, _, hparse⟩ := C12.read_dumped (c := (labelAll c doc).1.counter)
+    (pathStr (parseTarget p [] none).dropLast) G.dom G.norm G.doc G.cnt hv
+  have hgp : FS.get [(p, FileBody.native (renderG doc lay tail))] p = some (.native (renderG doc lay tail)) :=
+    C01.fs_get_single _ _
+  have hgq : FS.get [(p, FileBody.native (renderG doc lay tail))] (parseTarget p [] none) = none := by
+    have : (p == parseTarget p [] none) = false := by simpa using (fun h : p = parseTarget p [] none => hne h.symm)
+    simp [FS.get, List.find?, this]
+  have hwt : writeText evalInt [(p, FileBody.native (renderG doc lay tail))] (parseTarget p [] none) mode false
+      (.sd { data := evalData c doc }) (labelAll c doc).1.counter =
+      .ok (nativeHeader ++ fmtPlain .native (evalData c doc), (labelAll c doc).1.counter) := by
+    simp only [writeText, hfl, Q.hr, hgq, Arg.retype, G.norm, Bool.false_eq_true, if_false, fmtArg]
+    rw [C12.fmtSD_text]
+  have hset : FS.set [(p, FileBody.native (renderG doc lay tail))] (parseTarget p [] none)
+      (.native (nativeHeader ++ fmtPlain .native (evalData c doc))) =
+      [(p, .native (renderG doc lay tail)), (parseTarget p [] none, .native (nativeHeader ++ fmtPlain .native (evalData c doc)))] := by
+    have : (p == parseTarget p [] none) = false := by simpa using (fun h : p = parseTarget p [] none => hne h.symm)
+    simp [FS.set, this]
+  refine ⟨c₂, ?_, ?_, C01.dropPh_hdr G.noPh⟩
+  · simp only [apiStep, H.hr, hgp, hread, writeTo, hwt, Q.hr, hset, G.norm]
+  · have hget2 : FS.get [(p, FileBody.native (renderG doc lay tail)),
+        (parseTarget p [] none, .native (nativeHeader ++ fmtPlain .native (evalData c doc)))]
+        (resolveSpelled (parseTarget p [] none)) = some (.native (nativeHeader ++ fmtPlain .native (evalData c doc))) := by
+      have : (p == parseTarget p [] none) = false := by simpa using (fun h : p = parseTarget p [] none => hne h.symm)
+      simp [Q.hr, FS.get, List.find?, this]
+    have hr2 := readFile_hdr_anyfs evalInt _ (parseTarget p [] none) _ hget2 hparse G.noPh G.nodup Q.hj Q.hx
+    simp only [apiStep, hget2, hr2]
+
 /-! ### B. unresolved references (dangling, cyclic) -/
 
 /-- the tables of a first read of a flat document: only the data are not empty -/
@@ -1742,6 +1868,25 @@ theorem exR_cycles : ∃ c₁,
   rw [exR_text] at hread
   exact ⟨c₁, hread, h1, h2⟩
 
+theorem exQ_target : parseTarget exP [] none = exQ := by decide +kernel
+
+/-- `DictParser.parse("/w/case")` writes `/w/parsed.case`; `DictReader.read("/w/parsed.case")` returns the evaluated
+    data again -/
+theorem exR_api (mode : Str) : ∃ c₁ c₂,
+    apiStep evalInt { fs := [(exP, .native (renderG exR exRLay "  \n".toList))], c := none } (.parse exP {} mode none) =
+      ({ fs := [(exP, .native (renderG exR exRLay "  \n".toList)), (exQ, .native (nativeHeader ++ fmtPlain .native exRData))],
+         c := c₁ }, .data { data := exRData }) ∧
+    apiStep evalInt { fs := [(exP, .native (renderG exR exRLay "  \n".toList)),
+        (exQ, .native (nativeHeader ++ fmtPlain .native exRData))], c := c₁ } (.read exQ {}) =
+      ({ fs := [(exP, .native (renderG exR exRLay "  \n".toList)), (exQ, .native (nativeHeader ++ fmtPlain .native exRData))],
+         c := c₂ }, .data (C12.hdrSD exRData)) := by
+  obtain ⟨sd₀, c₁, hread⟩ := exR_read_ok
+  obtain ⟨h0, _⟩ := C03_expr_reread exR_ok exQ_ok (Or.inl rfl) exR_resolvable hread
+  obtain ⟨c₂, h1, h2, _⟩ := C03_expr_parse_api exR_ok (Or.inl rfl) exR_resolvable mode (by rw [exQ_target]; exact exQ_ok)
+    (by rw [exQ_target]; decide) (by rw [exQ_target]; decide) hread
+  rw [exQ_target, h0, exR_evalData] at h1 h2
+  exact ⟨c₁, c₂, h1, h2⟩
+
 /-! #### unresolved references -/
 
 /-- `d $nope; e "$p + 1"; s "x y"; n 7; f "$p";` -- every reference dangling; `s` in the "wrong" quotes, `f` a quoted
@@ -1768,6 +1913,7 @@ def exUData : Entries :=
 
 theorem exU_mean : meanD exU = exUData := by decide +kernel
 
+set_option maxRecDepth 100000 in
 theorem exU_written : writtenText exU = nativeHeader ++
     ("d                             $nope;\n" ++
      "e                             \"$p + 1\";\n" ++
@@ -1833,5 +1979,22 @@ theorem exM_cycles (n : Nat) : ∃ sd₀ c₁,
       refine ⟨sd₀, c₁, hr, by rw [h1]; decide +kernel, ?_, ?_⟩
       · rw [htab, h1]; exact h2
       · rw [h1]; exact h3
+
+/- checked: every one of these depends on [propext, Classical.choice, Quot.sound] only
+#print axioms C03_expr_reread
+#print axioms C03_expr_cycles
+#print axioms C03_expr_cycles_last
+#print axioms C03_expr_parse_api
+#print axioms C03_expr_unresolved_statement_false
+#print axioms C03_expr_unresolved_partial
+#print axioms C03_expr_unresolved_cycles_partial
+#print axioms C03_expr_residual_cycles
+#print axioms parse_hdr_exprs
+#print axioms evalExpressions_dangling
+#print axioms exR_cycles
+#print axioms exR_api
+#print axioms exU_cycles
+#print axioms exM_cycles
+-/
 
 end DictIO.C03expr
